@@ -234,6 +234,8 @@ prefix_harness!(c11_prefix_four_byte_lead, 5, 13, b"a\xF0\x9F\x98", 0x80, 0xBF);
 // U+0080..U+00BF: includes U+0085 (NEL)
 prefix_harness!(c11_prefix_c2_lead, 2, 10, b"\xC2", 0x80, 0xBF);
 prefix_harness!(c11_prefix_crlf, 4, 12, b"a\r\n", 0, 0x7F);
+prefix_harness!(c11_prefix_lf, 3, 11, b"a\n", 0, 0x7F);
+prefix_harness!(c11_prefix_ff, 3, 11, b"a\x0C", 0, 0x7F);
 prefix_harness!(c11_prefix_lf_letter, 4, 12, b"a\nb", 0, 0x7F);
 
 // ---- TWO symbolic text bytes: every valid UTF-8 text of exactly 2 bytes, every offset -------------------------
